@@ -65,3 +65,17 @@ Proof.
   - constructor; [exact three_levels_wf|]. constructor; [exact I|]. constructor; [apply vnew_wf|constructor].
   - constructor; [exact (proj1 slice_window_wf)|]. constructor; [exact I|constructor].
 Qed.
+
+(* The crate's own [check_invariants] (via [is_packed]) is weaker than [wf]: below an interior node it
+   forgets that the node is not on the right edge.  This tree has a partially filled leaf in the
+   middle, passes [check_invariants], and [get 3] on it misses the element [4]. *)
+Definition badly_packed : @vec nat :=
+  mkVec (Some (Interior [Interior [Leaf [1; 2]; Leaf [3]]; Interior [Leaf [4; 5]; Leaf [6]]])) 6 2.
+
+Example check_invariants_incomplete :
+  check_invariants 2 badly_packed = true /\ ~ wf 2 badly_packed
+  /\ vget 2 badly_packed 3 = None /\ nth_error (to_list badly_packed) 3 = Some 4.
+Proof.
+  split; [vm_compute; reflexivity|]. split; [|split; vm_compute; reflexivity].
+  intros W. pose proof (vget_spec 2 ltac:(lia) badly_packed 3 W) as H. vm_compute in H. discriminate.
+Qed.
